@@ -517,6 +517,13 @@ func scanContentRule(p *Prog, r *Report, rule string, m mgrSpec, components []st
 		return
 	}
 	for _, fn := range p.ImplsOf(iface, m.Add) {
+		fn := fn
+		p.InScope(fn, func() { scanContentOne(p, r, rule, m, components, fn) })
+	}
+}
+
+func scanContentOne(p *Prog, r *Report, rule string, m mgrSpec, components []string, fn *ssa.Function) {
+	{
 		base := FnName(fn)
 		// the new entry's components
 		stored := map[string]ssa.Value{}
